@@ -3,6 +3,7 @@
   E3   coverage-guided fuzzing of the same interpreter/oracle (cargo-fuzz, libFuzzer + ASan)
   ASan the native engines rebuilt with -Zsanitizer=address (C03, C04, C16, C18)
   Miri a small sample of generated histories under `cargo +nightly miri run` (C03)
+  TSan the concurrent-reader scenario rebuilt with -Zsanitizer=thread -Zbuild-std (C19)
 Results are merged into the evidence file. A stage whose tooling is unavailable or that hits
 its wall-clock cap is reported as inconclusive *part* in the evidence, never as a violation.
 usage: thorough_extra.py <ID> <verif dir> <out dir> <repo dir> <seed>"""
@@ -12,6 +13,7 @@ ID, V, OUT, REPO, SEED = sys.argv[1], sys.argv[2], sys.argv[3], sys.argv[4], int
 FUZZ_PROPS = {"C01", "C02", "C03", "C04", "C06", "C07", "C08", "C09", "C10", "C12", "C13", "C14", "C15", "C16", "C17", "C18"}
 ASAN_PROPS = {"C03", "C04", "C16", "C18"}
 MIRI_PROPS = {"C03"}
+TSAN_PROPS = {"C19"}
 env = dict(os.environ, CARGO_NET_OFFLINE="true", VERIF_REPO=REPO, VERIF_DIR=OUT)
 cfg = [] if REPO == "/repo" else ["--config", 'paths=["%s"]' % REPO]
 extra = {}
@@ -129,6 +131,40 @@ def miri_stage():
         st["inconclusive"] = (out.strip().splitlines() or [""])[-1][:300]
     return st
 
+def tsan_stage():
+    """C19: the concurrent-reader scenario (every &self method of a shared cache from six
+    threads) under ThreadSanitizer: a &self method that writes is a reported data race even
+    when every answer still looks right."""
+    st = {"stage": "ThreadSanitizer run of the concurrent-reader scenario"}
+    tgt = os.path.join(OUT, "target", "tsan")
+    t0 = time.time()
+    e = dict(env, RUSTFLAGS="-Zsanitizer=thread")
+    rc, out = sh(["cargo", "+nightly", "build", "--release", "--offline", "-Zbuild-std", "--target", "x86_64-unknown-linux-gnu", "--no-default-features", "--features", "std,plain-alloc", "--target-dir", tgt] + cfg, cwd=os.path.join(V, "harness"), timeout=2400, env_=e, log=os.path.join(OUT, "target", "build-tsan.log"))
+    if rc != 0:
+        st["inconclusive"] = "TSan build failed (see target/build-tsan.log)"
+        return st
+    st["build_s"] = round(time.time() - t0, 1)
+    binp = os.path.join(tgt, "x86_64-unknown-linux-gnu", "release", "vh")
+    os.makedirs(os.path.join(OUT, "work"), exist_ok=True)
+    case = os.path.join(OUT, "work", "tsan-conc.json")
+    json.dump({"property": "C19", "engine": "conc", "case": {}}, open(case, "w"))
+    t0 = time.time()
+    rc, out = sh([binp, "replay", case, "--verif-dir", OUT], timeout=1800, env_=dict(env, VH_CHILD="1", TSAN_OPTIONS="halt_on_error=1 exitcode=66"))
+    st["wall_s"] = round(time.time() - t0, 1)
+    st["exit"] = rc
+    if "ThreadSanitizer" in out:
+        rp_dir = os.path.join(OUT, "replays", ID); os.makedirs(rp_dir, exist_ok=True)
+        rp = os.path.join(rp_dir, "tsan-report.txt")
+        open(rp, "w").write(out[-8000:])
+        m = re.search(r"WARNING: ThreadSanitizer: (.*)", out)
+        violations.append((rp, "[TSan] %s while six threads call only `&self` methods of a shared cache (a `&self` method writes: the type must not be Sync)" % (m.group(1) if m else "data race")))
+    elif rc == 1:
+        m = re.search(r"^VIOLATION property=\S+ replay=(\S+)\n\s*(.*)$", out, re.M)
+        violations.append((case, "[TSan build] " + (m.group(2) if m else out[-300:])))
+    elif rc != 0:
+        st["inconclusive"] = (out.strip().splitlines() or [""])[-1][:300]
+    return st
+
 stages = []
 if not have_nightly():
     stages.append({"stage": "nightly toolchain", "inconclusive": "cargo +nightly not available: E3 / ASan / Miri stages skipped"})
@@ -139,6 +175,8 @@ else:
         stages.append(asan_stage())
     if ID in MIRI_PROPS:
         stages.append(miri_stage())
+    if ID in TSAN_PROPS:
+        stages.append(tsan_stage())
 
 evp = os.path.join(OUT, "evidence", ID + ".json")
 try:
